@@ -81,7 +81,35 @@ def strategy(prop: str, tier: str) -> st.SearchStrategy:
     return cases(tier)
 
 
+_EMPTY_CTX: list = []
+
+
+def empty_context_class() -> type:
+    """A Context subclass whose instances have a False truth value (a container-like context that is
+    still empty): it is a context like any other."""
+    if not _EMPTY_CTX:
+        from asphalt.core import Context
+
+        class EmptyContext(Context):
+            def __len__(self) -> int:
+                return 0
+
+        _EMPTY_CTX.append(EmptyContext)
+    return _EMPTY_CTX[0]
+
+
 class Interp:
+    n_created = 0
+
+    def ctx_cls(self) -> type:
+        from asphalt.core import Context
+
+        self.n_created += 1
+        if self.n_created % 4 == 2:
+            self.labels.add("falsy-context-subclass")
+            return empty_context_class()
+        return Context
+
     def __init__(self, case: dict) -> None:
         self.case = case
         self.out = Outcome()
@@ -152,9 +180,9 @@ class Interp:
                 k = it.get("parent")
                 if k is not None and stack:
                     want = stack[max(0, len(stack) - 1 - k)]
-                    c = Context(want)
+                    c = self.ctx_cls()(want)
                 else:
-                    c = Context()
+                    c = self.ctx_cls()()
                     want = stack[-1] if stack else None
                 if c.parent is not want:
                     self.disc("new-context-parent" + (":component" if in_component >= 0 else ""),
@@ -216,10 +244,10 @@ class Interp:
             self.labels.add("prebuilt-context")
         elif k is not None and len(stack) >= 2:
             want_parent = stack[max(0, len(stack) - 1 - k)]
-            c = Context(want_parent)
+            c = self.ctx_cls()(want_parent)
             self.labels.add("explicit-parent")
         else:
-            c = Context()
+            c = self.ctx_cls()()
             want_parent = stack[-1] if stack else None
         if c.parent is not want_parent:
             self.disc("new-context-parent" + (":component" if in_component >= 0 else ""),
